@@ -29,7 +29,7 @@ func (c22) Budget(tier string) int {
 func (c22) Describe() engine.Info {
 	return engine.Info{
 		Rule: "scenario = 50..400 events over {key down/up for each of the 8 keys (delivered through the simulated display), JOYP write of any value, JOYP read} 0..200 cycles apart. Oracle: reference joypad (bits 6-7 read 1, bits 4-5 as last written, low nibble = AND of the selected groups' lines, all 1s when none is selected, pressing a direction releases its opposite). Signature = reached controller state (select bits, direction lines, button lines): the reachable space has 4 x 9 x 16 = 576 states." +
-			" A third of the walks also start DMA transfers and switch LCD, sound and timer while JOYP is polled. Class walk-storm: between two reads, the same key reported down 255..1024 or 65535..131072 times then released, or that many events in all (one visible change, then presses/releases of another key and select rewrites).",
+			" A third of the walks also start DMA transfers and switch LCD, sound and timer while JOYP is polled. Class walk-storm: between two reads, the same key reported down 255..1024 or 65535..131072 times then released, or that many events in all (one visible change, then presses/releases of another key and select rewrites). Class sgb-probe: Super Game Boy command packets clocked out through the select lines, then polls with neither group selected.",
 		Assumptions:    []string{"breadth-first enumeration named in the quantifier is model checking; random walks are used instead and the number of distinct states reached is reported", "the joypad interrupt is never raised by this emulator and is not part of the statement"},
 		RequiredProbes: []string{"both_groups_selected_read", "opposite_direction_pressed", "no_group_selected_read", "dma_started_during_the_walk", "more_than_16_key_events_between_reads", "storm_of_65536_events_between_reads", "read_after_a_minute_of_holding"},
 		RealComponents: realComponents, StubComponents: stubComponents,
